@@ -156,6 +156,23 @@ HARNESSES += [
                "blocks; the allocator answers symbolically (any free run / failure), at most 2 general allocations; quick: left-only, "
                "right-only, neither; thorough: left+right, and (ratio 4) further extents"),
 ]
+# ---- extent tree edit primitive (extent.c) ----
+SETBMAP_UW = main_loops(8, 17) + ["ext2fs_extent_open2.0:17", "ext2fs_write_inode.0:17", "ext2fs_extent_goto2.0:7", "ref_lookup.0:5",
+                                  "vf_memmove.0:17", "vf_memmove.1:17", "ext2fs_extent_get.0:4", "ext2fs_extent_fix_parents.0:3",
+                                  "ext2fs_extent_free.0:3"]
+HARNESSES += [
+    dict(name="setbmap0", src="setbmap0.c",
+         funcs=["ext2fs_extent_set_bmap", "ext2fs_extent_open2", "ext2fs_extent_get", "ext2fs_extent_goto2", "ext2fs_extent_replace",
+                "ext2fs_extent_insert", "ext2fs_extent_delete", "ext2fs_extent_fix_parents", "ext2fs_extent_get_info", "update_path"],
+         cut_statics={"lib/ext2fs/extent.c": ["extent_node_split"]},
+         configs=[{"NEXT": 2}, {"NEXT": 1}, {"NEXT": 0}, {"NEXT": 0, "EMPTY_UNMAP": None},
+                  {"NEXT": 3, "_tier": "thorough"}, {"NEXT": 2, "WRITECHK": None, "_tier": "thorough"},
+                  {"NEXT": 2, "WITH_BIG": None, "_tier": "thorough"}, {"NEXT": 2, "NOGOTO": None, "_tier": "thorough"}],
+         unwind=6, unwindset=SETBMAP_UW, backends=["default"],
+         bound="depth-0 tree in i_block with 0..3 extents (gaps 0..3, lengths 1..4, either state, physical 1..65536), one "
+               "ext2fs_extent_set_bmap(L, P, flags) with L in 0..31, P = 0 (unmap) or 1..65535, flags 0 / SET_BMAP_UNINIT, handle "
+               "positioned by goto(S), S in 0..31; results needing a 5th extent (node split) excluded"),
+]
 MANIFEST = {
     "text": "Bounded-exhaustive kernels of the libext2fs file data path: (1) one real file-handle operation "
             "(read/write/llseek/flush/set_size/close) from every handle+mapping+disk state satisfying the buffer "
